@@ -91,14 +91,15 @@ func (lc *LocalClient) AddVersion(v Version, deps []RequirementVersion) {
 	for i, w := range versions {
 		if w.VersionKey == v.VersionKey {
 			existed = true
-			versions[i] = w
+			versions[i] = v
 		}
 	}
-	// Otherwise insert and sort.
+	// Otherwise insert. Sort in both cases: the npm order depends on the
+	// attributes (the "latest" tag), which a replacement may change.
 	if !existed {
 		versions = append(versions, v)
-		SortVersions(versions)
 	}
+	SortVersions(versions)
 	lc.PackageVersions[v.PackageKey] = versions
 
 	SortDependencies(deps)
